@@ -43,6 +43,16 @@ CHECKS['C12'] = dict(
          'documentation, acceptance of every documented-valid job, buffers untouched by asm direct-API functions.',
     design='§3 C12', note=TB + '; the guard baseline imbv/data/guards_baseline.json holds semantic tuples (no source text or positions) taken from the reference tree after the fix: commits')
 
+CHECKS['C20'] = dict(
+    technique='static analysis: CFG must-reach / dropped-result / dominance rules over self_test.c and the init functions',
+    text='Decides on the CFG of self_test.c and the public init functions: self_test() runs on the success path of every public init, only '
+         'on an initialised non-NULL manager, and its failure sets IMB_ERR_SELFTEST; the PASS bit is cleared first and set only when every '
+         'group passed; no KAT / process_job result is dropped; after every processed job the vector\'s expected tag/text is compared and a '
+         'mismatch fails the KAT; the CORRUPT hook precedes processing and corrupts the input; START and exactly one PASS/FAIL surround each '
+         'vector; every vector table is walked completely and announces the documented algorithms. Not decided: the KAT values, and that a '
+         'corrupted input changes the output of the kernel (value-level).',
+    design='§3 C20', note=TB)
+
 NOT_APPLICABLE = {
     'C07': 'bounds of SIMD loads/stores relative to run-time lengths need relational numeric invariants over ~850 '
            'hand-written assembly functions; no sound static argument in reach (no frama-c; CSA/cppcheck do not see NASM)',
